@@ -533,16 +533,16 @@ func (bkt *Bucket) incr(ki *KeyInfo, value int) int {
 			if len(tofree.Body) > 22 {
 				logger.Warnf("incr with large value %s...", string(tofree.Body[:22]))
 				errFlag = true
-				return 0
+			} else {
+				s := string(tofree.Body)
+				v, err := strconv.Atoi(s)
+				if err != nil {
+					errFlag = true
+					logger.Warnf("incr with value %s", s)
+				}
+				ver += tofree.Ver
+				value += v
 			}
-			s := string(tofree.Body)
-			v, err := strconv.Atoi(s)
-			if err != nil {
-				errFlag = true
-				logger.Warnf("incr with value %s", s)
-			}
-			ver += tofree.Ver
-			value += v
 		}
 	}
 
@@ -553,6 +553,12 @@ func (bkt *Bucket) incr(ki *KeyInfo, value int) int {
 		}
 		cmem.DBRL.SetData.SubCount(1)
 		return 0
+	}
+
+	if tofree != nil {
+		// the old value was only needed to compute the new one
+		cmem.DBRL.GetData.SubSizeAndCount(tofree.CArray.Cap)
+		tofree.CArray.Free()
 	}
 
 	payload := &Payload{}
